@@ -4,7 +4,7 @@
 # Copies the confirmed seed to /verif/seeded/<Cxx>-<v>/ and writes confirm.json there.
 set -u
 ID=$1; V=$2
-SRC=/tmp/seed/$ID-out/$V
+SRC=${SEEDROOT:-/tmp/seed}/$ID-out/$V
 SLOT=${SLOT:-}
 WT=/tmp/confirm-wt$SLOT
 export CARGO_TARGET_DIR=/tmp/confirm-target$SLOT CARGO_NET_OFFLINE=true
